@@ -2,7 +2,8 @@
    Curve ids: 0 secp256k1, 1 nist256p1, 2 ed25519, 3 ed25519-blake2b.
    Variant: 0 = property-conformant model (SLIP-0010 retry), 1 = the code as it stands (no retry).
    EC points travel as VL [] (infinity) or VL [VN x; VN y]; group operations are answered by the
-   ec_* oracles (harness/ecref.py); compressed serialisation is computed here.
+   ec_base / ec_add oracles (harness/ecref.py) and deriv_ec_mul (harness/deriv_fastec.py, cached Jacobian
+   arithmetic cross-checked against ecref on every run); compressed serialisation is computed here.
    [mock]: list of (HMAC data, forced HMAC output) pairs -- lets the harness drive the rare branches
    (left half >= n, zero child) by forcing the same HMAC outputs on both sides. *)
 From Coq Require Import NArith ZArith List String Bool.
@@ -30,7 +31,7 @@ Section ApiDeriv.
   Definition G_oracle (cid ord : N) : group_ops :=
     mk_group_ops (list N) []
       (fun P Q => o_pt "ec_add" [VN cid; pt_val P; pt_val Q])
-      (fun k P => o_pt "ec_mul" [VN cid; VN k; pt_val P])
+      (fun k P => o_pt "deriv_ec_mul" [VN cid; VN k; pt_val P])
       (o_pt "ec_base" [VN cid]) ord
       (fun P => match P with [] => true | _ => false end)
       ser_c_xy ser_u_xy.
